@@ -35,10 +35,10 @@ EvalPreTapscript(ctx, vm, sig, key) ==
 
 \* BIP340 check of a tapscript / key-path signature: "" or error label
 SchnorrErr(ctx, vm, sig, key, keyPath) ==
-    IF Len(sig) # 64 /\ Len(sig) # 65 THEN "SCHNORR_SIG_SIZE"
+    IF ~ctx.hasTx THEN "UNKNOWN_ERROR"       \* no transaction: outside Bitcoin's rules; the tool fails without a label
+    ELSE IF Len(sig) # 64 /\ Len(sig) # 65 THEN "SCHNORR_SIG_SIZE"
     ELSE LET hashtype == IF Len(sig) = 65 THEN sig[65] ELSE 0
          IN IF Len(sig) = 65 /\ hashtype = 0 THEN "SCHNORR_SIG_HASHTYPE"
-            ELSE IF ~ctx.hasTx THEN "UNKNOWN_ERROR" \* no transaction: outside Bitcoin's rules; the tool fails without a label
             ELSE LET d == TaprootDigest(ctx, vm, hashtype, keyPath)
                  IN IF ~d[1] THEN "SCHNORR_SIG_HASHTYPE"
                     ELSE IF SchnorrVerify(key, FirstN(sig, 64), d[2]) THEN "" ELSE "SCHNORR_SIG"
